@@ -191,9 +191,16 @@ def expected_fields(spec, has_data=None):
 class RecordingDul(object):
     """lazy=True models a slow provider thread: queued generators are consumed only by drain()."""
 
+    def __getattr__(self, name):
+        if name.startswith('__'):
+            raise AttributeError(name)
+        from .common import HarnessError
+        raise HarnessError('recording provider has no %r: it does not fit this tree' % (name,))
+
     def __init__(self, lazy=False):
         self.sent = []
         self.lazy = lazy
+        self.accepted_contexts = {}
         self.inbox = []          # what receive() hands to the association next: (message, context id) or a PDU
 
     def receive(self, timeout=None):
